@@ -21,8 +21,10 @@ from collections import Counter
 from typing import Any, Dict, List, Optional
 
 VERIF = os.path.dirname(os.path.dirname(os.path.abspath(__file__)))
-EVIDENCE_DIR = os.path.join(VERIF, "evidence")
-REPLAY_DIR = os.path.join(VERIF, "replays")
+# PV_OUT redirects evidence / replay output (used only when evaluating seeded changes on scratch trees)
+_OUT = os.environ.get("PV_OUT", VERIF)
+EVIDENCE_DIR = os.path.join(_OUT, "evidence")
+REPLAY_DIR = os.path.join(_OUT, "replays")
 FINDINGS_FILE = os.path.join(VERIF, "known_findings.jsonl")
 
 
